@@ -76,7 +76,7 @@ def run(ctx):
     opens = [b for b in F.all_bodies(MQ) if b.name == "open" and b.path.startswith(SLOT)]
     ctx.floor("R13.3", "open implementations", len(opens), 2)
     for b in opens:
-        pr = Prov(b, adapter_pred=lambda t: (t.get("callee") or {}).get("name") in ("as_mut", "expect", "unwrap"))
+        pr = Prov(b, adapter_pred=lambda t: (t.get("callee") or {}).get("name") in ("as_mut", "expect", "unwrap", "branch"))
         key = fnkey(b)
         mode_p = [i for i in range(1, b.arg_count + 1) if "OnParentDrop" in b.locals[i]["ty"]]
         ctx.check(len(mode_p) == 1, "R13.3", key + "#has-mode-parameter", loc(b), "open has no mode parameter")
@@ -100,7 +100,16 @@ def run(ctx):
             continue
         takes = [c for c in b.calls() if c.is_("core::option::Option::<T>::take")]
         ro = pr.local(0)
-        ctx.check(len(takes) == 1 and ("call", takes[0].bb) in ro and not any(x[0] == "agg" and x[2] == "Some" for x in ro), "R13.3", key + "#guard-only-from-take", loc(b),
+        # `self.tx.take()` handed out as it is, or re-wrapped (`let g = self.tx.take()?; ...; Some(g)`): every Some built here must
+        # wrap what the take produced and nothing made on the spot
+        rewrap_ok = True
+        for i_ in b.live_blocks():
+            for s_ in b.stmts(i_):
+                if s_["k"] == "assign" and s_["rv"]["k"] == "agg" and s_["rv"].get("variant") == "Some" and s_["rv"].get("adt", "").endswith("option::Option"):
+                    po = set().union(*[pr.operand(o_) for o_ in s_["rv"]["ops"]]) if s_["rv"]["ops"] else set()
+                    if not takes or ("call", takes[0].bb) not in po or any(x[0] == "agg" or (x[0] == "call" and x[1] != takes[0].bb) for x in po):
+                        rewrap_ok = False
+        ctx.check(len(takes) == 1 and ("call", takes[0].bb) in ro and rewrap_ok, "R13.3", key + "#guard-only-from-take", loc(b),
                   "the slot guard handed out does not come (only) from Option::take of the stored guard: a slot could be opened twice")
         # mode stored into the guard on the Some path
         stored = []
@@ -113,19 +122,29 @@ def run(ctx):
                         stored.append(i)
         ctx.check(bool(stored), "R13.3", key + "#mode-stored-in-guard", loc(b), "the requested parent-drop mode is not stored into the guard")
     # ------------------------------------------------------------------ R13.4
-    opd = F.adt("slot::OnParentDrop")
-    fg = F.adt("slot::FlushGuard")
+    # public types of the crate, found by name wherever their defining module is (a move behind a re-export keeps the public path)
+    def mq_adt(name):
+        c_ = [a for d, a in F.adts.items() if a["crate"] == MQ and d.endswith("::" + name)]
+        return c_[0] if len(c_) == 1 else None
+    opd = mq_adt("OnParentDrop")
+    fg = mq_adt("FlushGuard")
     ok1 = opd and any(v["name"] == "Wait" and any("FlushGuard" in f["ty"] for f in v["fields"]) for v in opd["variants"])
     ok2 = fg and any("keep_alive::Guard" in f["ty"] for v in fg["variants"] for f in v["fields"])
     ctx.check(bool(ok1), "R13.4", SLOT + "OnParentDrop#wait-carries-flush-guard", "", "OnParentDrop::Wait no longer owns a FlushGuard")
     ctx.check(bool(ok2), "R13.4", SLOT + "FlushGuard#carries-keep-alive-guard", "", "FlushGuard no longer owns the keep-alive Guard")
     for nm in ("SlotGuard", "FlushGuard", "ForceFlushGuard"):
-        cl = [i for i in F.impls_of("core::clone::Clone") if i["crate"] == MQ and (i.get("self_head") or {}).get("adt", "").endswith("slot::" + nm)]
+        cl = [i for i in F.impls_of("core::clone::Clone") if i["crate"] == MQ and (i.get("self_head") or {}).get("adt", "").endswith("::" + nm)]
         ctx.check(not cl, "R13.4", SLOT + nm + "#not-Clone", "", "%s implements Clone" % nm)
     # ------------------------------------------------------------------ R13.5 a received value is stored once per receiver
-    slot_adt = F.adt("slot::Slot")
+    slot_adt = mq_adt("Slot")
     data_f = [f["name"] for v in (slot_adt or {}).get("variants", []) for f in v["fields"] if f["ty"].startswith("core::option::Option<<") and "Closed" in f["ty"]]
-    rx_f = [f["name"] for v in (slot_adt or {}).get("variants", []) for f in v["fields"] if "slot::Waiting<" in f["ty"]]
+    # the receiver field, by what it holds: the oneshot receiver itself, or a private wrapper struct around one
+    def _holds_receiver(ty):
+        if "oneshot::Receiver<" in ty:
+            return True
+        return any(a["crate"] == MQ and (a["def"] + "<") in ty and any("oneshot::Receiver<" in f_["ty"] for v_ in a["variants"] for f_ in v_["fields"])
+                   for a in F.adts.values())
+    rx_f = [f["name"] for v in (slot_adt or {}).get("variants", []) for f in v["fields"] if _holds_receiver(f["ty"])]
     ctx.check(len(data_f) == 1 and len(rx_f) == 1, "R13.5", SLOT + "Slot#fields", "", "cannot identify the received-value field / the receiver field of Slot (%s / %s)" % (data_f, rx_f),
               "received value: .%s, receiver: .%s" % (data_f, rx_f))
     n5 = 0
